@@ -279,13 +279,19 @@ TEARDOWNS = [
 ]
 
 
-async def _teardown_case(loop, first, end, with_first):
+async def _teardown_case(loop, first, end, with_first, holder=False):
     users = [W.UserSpec("foo", "pw", max_conn=1), W.UserSpec("bar", None)]
     wd = W.World(loop, users)
     await wd.start()
     out = {}
     try:
         wd.set_tree(TREE)
+        if holder:
+            # the account's only slot is HELD by a session that stays: whoever else names the account is refused, and
+            # being refused (and leaving) takes nothing away from the holder
+            h = await wd.raw_client()
+            await W.run_line(wd, h, b"USER foo")
+            await W.run_line(wd, h, b"PASS pw")
         if with_first:
             a = await wd.raw_client()
             for line in first:
@@ -305,6 +311,13 @@ async def _teardown_case(loop, first, end, with_first):
             codes, _, _, _ = await W.run_line(wd, b, line.encode())
             recs.append(codes)
         out = {"recs": recs, "tree_has_t2": "t2" in wd.tree()}
+        if holder:
+            hp, _, _, _ = await W.run_line(wd, h, b"PWD")
+            out["holder_pwd"] = hp
+            out["foo_free"] = wd.server.user_manager.available_connections[wd.users[0]].value
+            await W.run_line(wd, h, b"QUIT")
+            await loop.settle()
+            out["foo_free_after"] = wd.server.user_manager.available_connections[wd.users[0]].value
         await loop.settle()
     finally:
         try:
@@ -316,12 +329,36 @@ async def _teardown_case(loop, first, end, with_first):
 
 def _teardown_job(args):
     try:
-        return simnet.run(_teardown_case, *args)
+        return simnet.run(_teardown_case, *args, wall_limit=60)
     except BaseException as e:  # noqa
         return "HARNESS-ERROR %s: %s" % (type(e).__name__, e)
 
 
+HELD = [
+    ("refused-then-quit", ["USER foo", "QUIT"], None),
+    ("refused-then-vanish", ["USER foo"], "vanish"),
+    ("refused-then-close", ["USER foo", "PASS pw"], "close"),
+    ("refused-twice-then-quit", ["USER foo", "USER foo", "PASS pw", "QUIT"], None),
+    ("refused-then-another-account", ["USER foo", "USER bar", "PWD", "QUIT"], None),
+]
+
+
 def teardown_check(ctx, res):
+    solo_held = _teardown_job(([], None, False, True))
+    for name, first, end in HELD:
+        res.cases += 1
+        res.count("kind=refused-beside-the-holder")
+        o = _teardown_job((first, end, True, True))
+        if isinstance(o, str) or isinstance(solo_held, str):
+            res.disagreements.append({"correspondence": "teardown harness", "input": name, "impl": o if isinstance(o, str) else solo_held})
+            continue
+        res.distinct.add(("held", name))
+        if o != solo_held:
+            res.oracle_failures.append({
+                "input": {"kind": "teardown", "first_session": first, "ends_by": end or "QUIT", "name": name, "holder": True},
+                "what": "foo's only slot is held by a session that stays; another session %s: afterwards %r; without that other session %r" % (name, o, solo_held),
+                "signature": "C17:refused-session-changes-the-holder's-account",
+            })
     solo = _teardown_job(([], None, False))
     for name, first, end in TEARDOWNS:
         res.cases += 1
@@ -809,8 +846,8 @@ def search(ctx, prior):
 def replay(ctx, doc):
     inp = doc["failure"]["input"]
     if inp.get("kind") == "teardown":
-        o = _teardown_job((inp["first_session"], None if inp["ends_by"] == "QUIT" else inp["ends_by"], True))
-        solo = _teardown_job(([], None, False))
+        o = _teardown_job((inp["first_session"], None if inp["ends_by"] == "QUIT" else inp["ends_by"], True, bool(inp.get("holder"))))
+        solo = _teardown_job(([], None, False, bool(inp.get("holder"))))
         print("after the first session:", o)
         print("alone                  :", solo)
         return o != solo
